@@ -272,7 +272,10 @@ func runC15(cs c15Case, wts *wt.Server) (viol string, stats map[string]bool) {
 			if !errors.Is(err, webtrans.ErrReadLimit) {
 				return fmt.Sprintf("NextReader #%d: declared length %d (limit %d): error is %v, want the read-limit error", i, f.declared, cs.Limit, err), stats
 			}
-			if cs.Limit > 0 && f.declared < 1<<63 {
+			if cs.Limit > 0 {
+				if f.declared >= 1<<63 {
+					stats["limit-and-a-length-beyond-2^63"] = true
+				}
 				if _, _, ok := sess.ClosedByServer(); !ok {
 					return fmt.Sprintf("read limit %d exceeded by declared length %d but the session was not closed", cs.Limit, f.declared), stats
 				}
